@@ -113,6 +113,9 @@ func runAll(s sink.Sink, cfg props.Cfg, n int, stream string, workers int) {
 // returns the number of executions.
 func scenario(s sink.Sink, rng *rand.Rand, sample bool) int {
 	sc := scen.Generate(rng)
+	if sc.Sub != nil {
+		sc.Sub.Nested = nil // the local watcher handles one level of sub-channels: nested ones are outside the statement's premise (watched channels)
+	}
 	sc.NoWatch = [2]bool{} // the honest party watches (the statement's premise); B's watcher is switched off below
 	if rng.Intn(2) == 0 && len(sc.Steps) > 4 {
 		sc.Steps = sc.Steps[:1+rng.Intn(4)]
